@@ -78,15 +78,16 @@ def check_grid(run, pkg, ndim):
     snap = ("elem", frame_loop.target, 1)
     run.ob("R-LOOPDOM", fq, f"{ndim}D:frames", ok_frames, "grid is built for every frame", show(fit)[:80],
            witness=None if ok_frames else "frames skipped", loc=fi.loc(frame_loop.node), sound=True)
-    run.ob("R-IDX", fq, f"{ndim}D:frame-slot", frame_idx == n_term, "grid points of frame n are stored in row n",
-           f"first index {show(frame_idx)}", witness=None if frame_idx == n_term else "frame rows mixed", loc=loc_of(it, ev))
+    okfs = eqv(frame_idx, n_term)
+    run.ob("R-IDX", fq, f"{ndim}D:frame-slot", okfs, "grid points of frame n are stored in row n",
+           f"first index {show(frame_idx)}", witness=None if okfs else "frame rows mixed", loc=loc_of(it, ev), sound=True)
     # each coordinate: linspace(bounds[c,0], bounds[c,1], ngrids[c])[loopvar_c] with loopvar_c over range(ngrids[c])
     E = [sp.Symbol(f"E{c}", positive=True, integer=True) for c in range(3)]
     V = {}
     axis_of_loopvar = {}
     for c, co in enumerate(coords):
         key = f"{ndim}D:axis{c}"
-        ok = False
+        ok = None
         detail = show(co)[:120]
         if co[0] == "sub" and co[1][0] == "call" and co[1][1] == "numpy.linspace" and len(co[1][2]) >= 3:
             lo, hi, num = co[1][2][:3]
@@ -96,15 +97,15 @@ def check_grid(run, pkg, ndim):
             want_n = ("sub", ng, C(c))
             lv = co[2]
             li = it.loops.get(lv[1]) if lv[0] == "loopvar" else None
-            dom_ok = li is not None and li.iter == ("call", "builtins.range", (want_n,), ())
-            ok = lo == want_lo and hi == want_hi and num == want_n and dom_ok
+            dom_ok = eqv(li.iter, ("call", "builtins.range", (want_n,), ())) if li is not None else None
+            ok = tri(eqv(lo, want_lo), eqv(hi, want_hi), eqv(num, want_n), dom_ok)
             if lv[0] == "loopvar":
                 axis_of_loopvar[lv] = c
             if not dom_ok and li is not None:
                 detail += f" ; loop {show(li.iter)[:60]}"
         run.ob("R-ALG", fq, key, ok, f"coordinate {c} of a grid point is linspace(bounds[{c},0], bounds[{c},1], ngrids[{c}])[index_{c}], "
                f"index_{c} in range(ngrids[{c}])", detail,
-               witness=None if ok else f"axis {c} uses bounds/count/index of another axis or a wrong range", loc=loc_of(it, ev))
+               witness=None if ok else f"axis {c} uses bounds/count/index of another axis or a wrong range", loc=loc_of(it, ev), sound=True)
     # flat index polynomial
     lvs = sorted(axis_of_loopvar, key=lambda x: axis_of_loopvar[x])
     if len(lvs) != ndim:
@@ -157,7 +158,7 @@ def check_grid(run, pkg, ndim):
                     wit = f"ngrids={ext}: grid point {pt} stored at {val}, row-major (x slowest) position is {want}"
             if wit and ("share" in wit or "outside" in wit):
                 break
-        run.ob("R-LINEAR", fq, f"{ndim}D:flat-index", False, what, f"index polynomial {got}, reference {ref}", witness=wit, loc=loc_of(it, ev))
+        run.ob("R-LINEAR", fq, f"{ndim}D:flat-index", False, what, f"index polynomial {got}, reference {ref}", witness=wit, loc=loc_of(it, ev), sound=True)   # exact polynomial difference + enumerated extents
     # capacity of the grid arrays: prod(ngrids) rows
     allocs = [e for e in it.events if e.kind == "assign" and e.data["value"][0] == "call" and e.data["value"][1] == "numpy.zeros"]
     gp = ev.data["target"][1]
@@ -266,9 +267,9 @@ def check_property_sums(run, pkg):
         snap = ("elem", frame_loop.target, 1)
         gi = gl.target
         tgt = ev.data["target"]
-        ok_t = tgt[2][1] == (n_term, gi)
+        ok_t = eqv(tgt[2], ("tuple", (n_term, gi)))
         run.ob("R-IDX", fq, f"{name}:slot", ok_t, "value of grid point i of frame n is stored at [n, i]", show(tgt[2])[:60],
-               witness=None if ok_t else "grid values stored at another row", loc=loc_of(it, ev))
+               witness=None if ok_t else "grid values stored at another row", loc=loc_of(it, ev), sound=True)
         gp_term = None
         for e in stores(it):
             if e.data["value"][0] in ("list", "tuple") and e.data["target"][1][0] == "call" and e.data["target"][1][1] == "numpy.zeros" and e.data["target"][1] != tgt[1]:
@@ -280,9 +281,9 @@ def check_property_sums(run, pkg):
         axis = kw(val, "axis", 1)
         prod = val[2][0]
         want_axis = None if rank == 0 else C(0)
-        ok_axis = (axis is None or axis == C(0)) if rank == 0 else axis == C(0)
+        ok_axis = ((axis is None or axis == C(0)) if rank == 0 else axis == C(0)) or (None if (axis is not None and not is_const(axis)) else False)
         run.ob("R-ALG", fq, f"{name}:axis", ok_axis, f"{name} sum runs over the selected particles (axis 0)" , f"axis={show(axis) if axis else None}",
-               witness=None if ok_axis else "sum over components instead of particles", loc=loc_of(it, ev))
+               witness=None if ok_axis else "sum over components instead of particles", loc=loc_of(it, ev), sound=True)
         if not (prod[0] == "bin" and prod[1] == "*"):
             run.ob("R-ALG", fq, f"{name}:product", None, "summand is weight x property", show(prod)[:100], loc=loc_of(it, ev))
             continue
@@ -293,8 +294,7 @@ def check_property_sums(run, pkg):
         isw = lambda t: has(t, lambda x: x[0] == "call" and x[1] == "PyMatterSim.utils.funcs.grid_gaussian")
         w, pr = (a, b) if isw(a) else (b, a)
         if not isw(w):
-            run.ob("R-ALG", fq, f"{name}:product", False, "summand contains the Gaussian weight", show(prod)[:100],
-                   witness="weights dropped from the grid sum", loc=loc_of(it, ev))
+            run.ob("R-ALG", fq, f"{name}:product", None, "summand contains the Gaussian weight", show(prod)[:100], loc=loc_of(it, ev))
             continue
         # weight broadcast
         want_b = {0: None, 1: ("tuple", (("slice", NONE, NONE, NONE), ("mod", "numpy.newaxis"))),
@@ -304,7 +304,7 @@ def check_property_sums(run, pkg):
         if w[0] == "sub":
             gcall, bidx = w[1], w[2]
         ok_b = bidx == want_b and gcall[0] == "call"
-        run.ob("R-ALG", fq, f"{name}:broadcast", ok_b, f"weight is broadcast over the {rank} trailing axes", show(w)[:100],
+        run.ob("R-ALG", fq, f"{name}:broadcast", True if ok_b else None, f"weight is broadcast over the {rank} trailing axes", show(w)[:100],
                witness=None if ok_b else "weight multiplied along the wrong axis", loc=loc_of(it, ev))
         if gcall[0] != "call":
             continue
@@ -319,21 +319,21 @@ def check_property_sums(run, pkg):
             dist, sel = dist_sel[1], dist_sel[2]
             want_sel = ("cmp", "<", dist, ("sym", "gaussian_cut"))
             alt_sel = ("cmp", "<=", dist, ("sym", "gaussian_cut"))
-            ok_sel = sel in (want_sel, alt_sel)
+            ok_sel = eqv(sel, want_sel, alt_sel)
             run.ob("R-CMP", fq, f"{name}:cutoff", ok_sel, "particles within the cutoff (distance < gaussian_cut) are selected", show(sel)[:100],
-                   witness=None if ok_sel else "selection is not distance < cutoff", loc=loc_of(it, ev))
+                   witness=None if ok_sel else "selection is not distance < cutoff", loc=loc_of(it, ev), sound=True)
             # property selection alignment
             want_pr = ("sub", ("sym", "condition"), ("tuple", (n_term, sel)))
-            ok_al = pr == want_pr
+            ok_al = eqv(pr, want_pr)
             run.ob("R-ALIGN", fq, f"{name}:selection", ok_al, "the property is taken from the same frame and the same selected particles as the weights",
-                   show(pr)[:100], witness=None if ok_al else "weights and property refer to different particles / frames", loc=loc_of(it, ev))
+                   show(pr)[:100], witness=None if ok_al else "weights and property refer to different particles / frames", loc=loc_of(it, ev), sound=True)
             # distance provenance
             inner = is_rowwise_norm(dist)
             pa = pbc_args(inner) if inner else None
-            ok_d = False
+            ok_d = None
             if pa and pa[0][0] == "bin" and pa[0][1] == "-":
                 gpt = ("sub", gp_term, ("tuple", (n_term, gi))) if gp_term else None
-                ok_d = {pa[0][2], pa[0][3]} == {gpt, ("attr", snap, "positions")}
+                ok_d = True if {pa[0][2], pa[0][3]} == {gpt, ("attr", snap, "positions")} else None
             run.ob("R-PBC", fq, f"{name}:distance", ok_d, "distance is |minimum image of grid point - particle positions| of the same frame",
                    show(inner)[:120] if inner else show(dist)[:100], witness=None if ok_d else "distance not between grid point i and the frame's particles",
                    loc=loc_of(it, ev))
@@ -342,9 +342,9 @@ def check_property_sums(run, pkg):
                 run.ob("R-PBC", fq, f"{name}:cell", ok_h, "minimum image uses the frame's cell", show(pa[1])[:60],
                        witness=None if ok_h else "cell of another frame", loc=loc_of(it, ev), sound=True)
                 want_ppp = ("sub", ("sym", "ppp"), ("slice", NONE, ("call", "builtins.len", (("sym", "ngrids"),), ()), NONE))
-                ok_m = pa[2] in (want_ppp, ("sym", "ppp"))
+                ok_m = eqv(pa[2], want_ppp, ("sym", "ppp")) if pa[2] is not None else False
                 run.ob("R-PBC", fq, f"{name}:mask", ok_m, "periodicity mask (cut to the dimension) is forwarded", show(pa[2])[:60] if pa[2] else "default",
-                       witness=None if ok_m else "mask not forwarded", loc=loc_of(it, ev))
+                       witness=None if ok_m else "mask not forwarded", loc=loc_of(it, ev), sound=True)
 
 
 def check_spatial_average(run, pkg):
@@ -356,8 +356,8 @@ def check_spatial_average(run, pkg):
         raise AnalysisError("spatial_average: expected one return")
     cg = it.returns[0].data["value"]
     ok_copy = cg[0] == "call" and cg[1] in ("numpy.copy", ".copy", "numpy.array") and (cg[2] and cg[2][0] == ip)
-    run.ob("R-ALG", fq, "start", ok_copy, "accumulator starts as a copy of the input (the particle itself)", show(cg)[:80],
-           witness=None if ok_copy else "self term missing or input aliased", loc=fi.loc())
+    run.ob("R-ALG", fq, "start", True if ok_copy else (False if cg == ip else None), "accumulator starts as a copy of the input (the particle itself)", show(cg)[:80],
+           witness=None if ok_copy else "the input array itself is accumulated into: the caller's data is modified and neighbours are read half-averaged", loc=fi.loc(), sound=True)
     st = [e for e in stores(it) if e.data["target"][1] == cg]
     adds = [e for e in st if e.data["op"] == "+"]
     divs = [e for e in st if e.data["op"] == "/"]
@@ -382,20 +382,27 @@ def check_spatial_average(run, pkg):
     run.ob("R-LOOPDOM", fq, "particles", ok_di, "every particle is averaged", show(Li.iter)[:70], witness=None if ok_di else "particles skipped", loc=fi.loc(Li.node), sound=True)
     run.ob("R-IDX", fq, "neighbours", ok_dj, "neighbours of particle i are columns 1..cn_i of its row (column 0 is the count)", show(Lj.iter)[:90],
            witness=None if ok_dj else "neighbour slice is not [i, 1:1+cn_i]", loc=fi.loc(Lj.node), sound=True)
-    ok_t = tri_lazy(lambda: eqv(add.data["target"][2], ("tuple", (n, i))), lambda: eqv(add.data["value"], ("sub", ip, ("tuple", (n, j)))))
+    ok_t = tri(eqv(add.data["target"][2], ("tuple", (n, i))), eqv(add.data["value"], ("sub", ip, ("tuple", (n, j)))))
+    if add.data["value"][0] == "sub" and add.data["value"][1] == cg:
+        ok_t = False           # the neighbour term is read from the array being averaged
     run.ob("R-ALG", fq, "sum", ok_t, "adds the *input* value of neighbour j of the same frame to particle i", f"{key_of(add)}",
            witness=None if ok_t else "neighbour term read from another frame / from the partially averaged array", loc=loc_of(it, add), sound=True)
-    ok_div = tri_lazy(lambda: eqv(div.data["target"][2], ("tuple", (n, i))), lambda: eqv(div.data["value"], ("bin", "+", C(1), cnt), ("bin", "+", cnt, C(1))), lambda: (True if (set(div.loops) == {Ln.id, Li.id}) else None), lambda: (True if (div.seq > add.seq) else None))
+    ok_div = tri(eqv(div.data["target"][2], ("tuple", (n, i))), eqv(div.data["value"], ("bin", "+", C(1), cnt)), True if (set(div.loops) == {Ln.id, Li.id}) else None, True if (div.seq > add.seq) else None)
     run.ob("R-ALG", fq, "mean", ok_div, "divides by 1 + cn_i once per particle, after the neighbour sum", key_of(div),
            witness=None if ok_div else "normalisation is not 1 + coordination number", loc=loc_of(it, div), sound=True)
     # handle protocol
     rc = rd.data["call"]
     handle = rc[2][0] if rc[2] else None
     opened = [e for e in it.events if e.kind == "with" and e.data["value"][0] == "call" and e.data["value"][1] == "builtins.open"]
-    ok_h = bool(opened) and handle == opened[0].data["value"] and not opened[0].loops and set(rd.loops) == {Ln.id}
+    ok_h = True if (bool(opened) and handle == opened[0].data["value"] and not opened[0].loops and set(rd.loops) == {Ln.id}) else None
+    hopen = [e for e in it.events if (e.kind == "with" and e.data["value"] == handle) or (e.kind == "call" and e.data.get("result") == handle and e.data["call"][1] == "builtins.open")]
+    if ok_h is None and hopen and Ln.id in hopen[0].loops:
+        ok_h = False       # the handle passed to the reader is opened inside the frame loop
+    if ok_h is None and handle is not None and handle[0] == "call" and handle[1] == "builtins.open" and Ln.id in rd.loops and not opened:
+        ok_h = False       # open(...) evaluated in the reader call of every frame
     run.ob("R-HANDLE", fq, "reader", ok_h, "the neighbour file is opened once before the frame loop and read once per frame",
            f"read_neighbors in loops {rd.loops}, handle {show(handle)[:50] if handle else None}",
-           witness=None if ok_h else "multi-frame files are re-read from the start / read per particle", loc=loc_of(it, rd))
+           witness=None if ok_h else "multi-frame files are re-read from the start / read per particle", loc=loc_of(it, rd), sound=True)
     args = rc[2]
     ok_a = tri_lazy(lambda: (True if (len(args) >= 2) else None), lambda: eqv(args[1], ("sub", ("attr", ip, "shape"), C(1))))
     run.ob("R-PROTO", fq, "nparticle", ok_a, "reader is told the particle number of the input", show(args[1])[:60] if len(args) > 1 else "?",
@@ -412,7 +419,7 @@ def vectorised_spatial_average(run, it, fq, cg, rd):
     ip = ("sym", "input_property")
     NL = rd.data["result"]
     if not rd.loops:
-        run.ob("R-HANDLE", fq, "reader", False, "one neighbour frame is read per trajectory frame", "reader called outside the frame loop", witness="all frames use the first neighbour frame", loc=loc_of(it, rd))
+        run.ob("R-HANDLE", fq, "reader", None, "one neighbour frame is read per trajectory frame", "reader called outside the frame loop", loc=loc_of(it, rd))
         return
     Lf = it.loops[rd.loops[0]]
     n = Lf.target
@@ -465,15 +472,15 @@ def vectorised_spatial_average(run, it, fq, cg, rd):
             if bad:
                 break
         run.ob("R-ALG", fq, "mean", bad is None, "x_i + sum over the cn_i listed neighbours of the input x_j, divided by 1 + cn_i (zero padding and the count column excluded); vectorised form "
-               "decided on 6 padded neighbour tables x 2 frames", "; ".join(key_of(e)[:70] for e in body), witness=bad, loc=loc_of(it, body[0]))
+               "decided on 6 padded neighbour tables x 2 frames", "; ".join(key_of(e)[:70] for e in body), witness=bad, loc=loc_of(it, body[0]), sound=True)   # concrete neighbour table on which the replayed statements differ
     except (Unsupported, Exception) as e:  # noqa
         run.ob("R-ALG", fq, "form", None, "neighbour-average form recognised", f"{type(e).__name__}: {str(e)[:100]}", loc=fi.loc())
     start = cg[0] == "call" and cg[1] in ("numpy.copy", ".copy", "numpy.array", "numpy.zeros_like", "numpy.empty_like") and cg[2] and cg[2][0] == ip
-    run.ob("R-ALG", fq, "start", start, "the result is a fresh array derived from the input (the input is not modified)", show(cg)[:80], witness=None if start else "input aliased", loc=fi.loc())
+    run.ob("R-ALG", fq, "start", True if start else (False if cg == ip else None), "the result is a fresh array derived from the input (the input is not modified)", show(cg)[:80], witness=None if start else "input aliased", loc=fi.loc(), sound=True)
     rc = rd.data["call"]
     handle = rc[2][0] if rc[2] else None
     opened = [e for e in it.events if e.kind == "with" and e.data["value"][0] == "call" and e.data["value"][1] == "builtins.open"]
-    ok_h = bool(opened) and handle == opened[0].data["value"] and not opened[0].loops and set(rd.loops) == {Lf.id}
+    ok_h = True if (bool(opened) and handle == opened[0].data["value"] and not opened[0].loops and set(rd.loops) == {Lf.id}) else None
     run.ob("R-HANDLE", fq, "reader", ok_h, "the neighbour file is opened once before the frame loop and read once per frame", f"read_neighbors in loops {rd.loops}",
            witness=None if ok_h else "multi-frame files are re-read from the start / read per particle", loc=loc_of(it, rd))
 
@@ -496,12 +503,18 @@ def check_time_average(run, pkg):
     val = ev.data["value"]
     # window slice
     w = None
-    ok_slice = False
+    ok_slice = None
     if val[0] == "call" and val[1] == ".mean" and val[2][0][0] == "sub" and val[2][0][1] == ("sym", "input_property"):
         sl = val[2][0][2]
         if sl[0] == "slice" and sl[1] == n and sl[2][0] == "bin" and sl[2][1] == "+" and n in (sl[2][2], sl[2][3]) and sl[3] == NONE:
             w = sl[2][3] if sl[2][2] == n else sl[2][2]
             ok_slice = eqv(kw(val, "axis", 1), C(0))
+        elif sl[0] == "slice" and sl[2] != NONE:
+            # upper bound not literally n + w: take the truncated quotient inside it as the window length and compare
+            cand = [x for x in walk(sl[2]) if x[0] == "call" and x[1] in ("builtins.int", "math.floor", "numpy.floor", "builtins.round")]
+            if cand:
+                w = max(cand, key=lambda x: len(show(x)))
+                ok_slice = tri(eqv(sl[1], n), eqv(sl[2], ("bin", "+", n, w)), eqv(sl[3], NONE), eqv(kw(val, "axis", 1), C(0)))
     run.ob("R-ALG", fq, "window", ok_slice, "row n is the mean over frames n .. n+w-1 (axis 0)", show(val)[:100],
            witness=None if ok_slice else "window slice / mean axis differ", loc=loc_of(it, ev), sound=True)
     if w is None:
@@ -527,7 +540,7 @@ def check_time_average(run, pkg):
     forms_exact = [S.PyInt(q), sp.floor(q), sp.floor(q),
                    S.PyInt(sp.floor(q)), S.PyInt(sp.floor(q))]
     is_trunc = any(S.decide_equal(gw, f_)[0] for f_ in forms_exact)
-    ok_rows = False
+    ok_rows = None
     shp = res[2][0] if res[0] == "call" and res[1] == "numpy.zeros" and res[2] else None
     if shp is not None and shp[0] == "tuple":
         ok_rows = eqv(shp[1][0], ("bin", "-", ("attr", sn, "nsnapshots"), w))
@@ -565,7 +578,7 @@ def check_time_average(run, pkg):
             if bad:
                 break
         run.ob("R-ALG", fq, "middle", bad is None, "reported index is the window's central frame for every window length 1..8 and start 0..6",
-               f"middle = {show(mterm)}", witness=bad, loc=loc_of(it, mid_ev[0]))
+               f"middle = {show(mterm)}", witness=bad, loc=loc_of(it, mid_ev[0]), sound=True)   # exact integer evaluation on the enumerated windows
     except NotEvaluable as e:
         run.ob("R-ALG", fq, "middle", None, "reported index is the window's central frame", f"not evaluable: {e}", loc=loc_of(it, mid_ev[0]))
 
